@@ -15,6 +15,7 @@ func init() {
 	register(&Prop{ID: "C12", Run: runC12,
 		Technique: "static analysis: field coverage of teardown (value-flow from Flush/Close receivers to Node fields), typestate of the one-shot teardown flag, must-pass-through of teardown on every worker exit, writer wiring value-flow, sibling agreement of Executor implementations (go/ssa)",
 		Decided: []string{
+			"the step's log and redirect files are opened append-only unless new, through every function the node's set-up reaches (C12.append-only); stdout and stderr handed to the executor are one writer or share no sink (C12.wiring)",
 			"the output-capture pipe, which shares one MultiWriter with the step's log, is drained to EOF by a goroutine that never closes its read end (C11.pipe-drained, shared)",
 			"every buffered writer a setup function installs on the node is flushed, and its file closed, by teardown (C12.teardown-coverage)",
 			"the one-shot teardown flag is re-armed on the setup path, because a retried step goes through setup/teardown again (C12.teardown-rearm)",
@@ -38,6 +39,11 @@ func runC12(e *Env) {
 	c12Rearm(e, s)
 	c12AlwaysTeardown(e, s)
 	c12Wiring(e, s)
+	if su := e.nodeRoles().Setup; su != nil {
+		// the step's log and redirect files may exist already (a retried step, two steps or
+		// two streams collecting into one file): what was printed before must not be overwritten
+		appendOnlyFrom(e, "C12.append-only", "the step's log and redirect files are opened append-only unless new", "node set-up", "a log / redirect file that may already hold output", []*ssa.Function{su})
+	}
 	c12ExecutorSiblings(e, s)
 	c12HandbackLast(e, s)
 	if ex := e.FnQuiet(schedRel, "(*Node).Execute"); ex != nil {
@@ -114,7 +120,7 @@ func c12Coverage(e *Env, s *Sched) {
 	reach := func(callee string) map[string]bool {
 		out := map[string]bool{}
 		// through the helpers teardown is made of: parameters are followed to the call sites
-		tr := &ir.Tracer{C: e.C, Descend: e.repoDescend, Up: func(f *ssa.Function) []ssa.CallInstruction {
+		tr := &ir.Tracer{C: e.C, Descend: e.repoDescend, Fields: e.helperObjectFields, Up: func(f *ssa.Function) []ssa.CallInstruction {
 			if f == td {
 				return nil
 			}
@@ -410,6 +416,23 @@ func c12Wiring(e *Env, s *Sched) {
 	// before the call (a variable assigned under `stderrWriter != nil`): every way the
 	// argument gets its value is looked at with that way's conditions
 	errs := invoke("SetStderr")
+	// a return after which the executor is used: one that does not report an error
+	successReturn := func(in ssa.Instruction) bool {
+		rt, ok := in.(*ssa.Return)
+		if !ok {
+			return false
+		}
+		res := rt.Parent().Signature.Results()
+		if res.Len() == 0 || !ir.IsErrorType(res.At(res.Len()-1).Type()) {
+			return true
+		}
+		for _, v := range RetVals(rt, res.Len()-1) {
+			if e.mayBeNil(rt, v) {
+				return true
+			}
+		}
+		return false
+	}
 	isErrW := func(v ssa.Value) bool { return e.IsFieldRead(v, nil, e.nodeSinkFields()["stderr"]) }
 	type valAlt struct {
 		lits []ir.NLit
@@ -435,7 +458,7 @@ func c12Wiring(e *Env, s *Sched) {
 				c, ok := in.(*ssa.Call)
 				return ok && c.Call.IsInvoke() && c.Call.Method.Name() == "SetStderr"
 			},
-			Bad: ir.IsReturn})
+			Bad: successReturn})
 		if followed == nil {
 			continue
 		}
@@ -523,19 +546,7 @@ func c12Wiring(e *Env, s *Sched) {
 					c, ok := in.(*ssa.Call)
 					return ok && c.Call.IsInvoke() && c.Call.Method.Name() == "SetStderr"
 				},
-				Bad: func(in ssa.Instruction) bool {
-					// a return that hands the executor out (the error returns do not)
-					rt, ok := in.(*ssa.Return)
-					if !ok || len(rt.Results) == 0 {
-						return false
-					}
-					for _, v := range RetVals(rt, 0) {
-						if !ir.IsNilConst(ir.Resolve(v)) {
-							return true
-						}
-					}
-					return false
-				}})
+				Bad: successReturn})
 			if followed == nil {
 				continue
 			}
